@@ -125,9 +125,13 @@ def run(ctx):
             v, f = ev.call_function('bip39.mnemonic_from_entropy', [T.raw_op('HEX', E)])
             nl = normal_leaves(v)
             ob.require(len(nl) >= 1, '%d-bit entropy yields a sentence' % b, fme.where)
+            from .. import bits as BV
             for cs, leaf in nl:
-                same_term(ob, leaf, spec_sentence(E, b // 8, WL), 'bit-string assembly of a %d-bit entropy (%d words)' % (b, w),
-                          fme.where, vocab=VOCAB)
+                # both sides in bit-field normal form: which bits of which integer make up each 11-bit index, whether
+                # they were selected on strings of '0'/'1' or with shifts and masks
+                same_term(ob, BV.normalize(leaf), BV.normalize(spec_sentence(E, b // 8, WL)),
+                          'bit assembly of a %d-bit entropy (%d words): index i = bits [11i, 11i+11) of entropy || first ENT/32 bits of SHA-256'
+                          % (b, w), fme.where, vocab=VOCAB | {'BVINT'})
     # the wallet entry point hands the caller's hex text to the encoder unchanged and keeps the sentence it got
     ffe = p.get_function('base_wallet.BaseWallet.from_entropy_hex')
     with ctx.obligation('C04.PASS', 'BaseWallet.from_entropy_hex', None, ffe.where) as ob:
